@@ -3,6 +3,7 @@
 import json, os, sys
 sys.path.insert(0, os.path.dirname(os.path.abspath(__file__)))
 from checks import CHECKS
+READY = set(open(os.path.join(os.path.dirname(os.path.abspath(__file__)), "READY")).read().split())
 BASE = "for m in . cmd/application cmd/registration-server util/station-debug; do (cd /repo/$m && GOFLAGS= go test -vet=off -count=1 -timeout 25m ./...); done"
 m = {
  "version": 1,
@@ -25,7 +26,6 @@ m = {
  "notes": "All checks are property-based tests (pgregory.net/rapid v1.3.0), exhaustive enumerations of small finite sub-spaces through the same oracles, or native go fuzz targets with the oracle inside the target. See DESIGN.md.",
 }
 ALL = ["C%02d" % i for i in range(1, 21)]
-READY = set(open(os.path.join(os.path.dirname(os.path.abspath(__file__)), "READY")).read().split())
 for pid in sorted(CHECKS):
     if pid not in READY:
         continue
